@@ -123,6 +123,10 @@ func runC09(c *Ctx) {
 	so := &vc.SolveOpts{TimeoutMs: 2000, RaceTimeout: 6 * time.Second, Models: true}
 	c.Replayer = replayCallFault
 	sweep(c, roots, so)
+	// hand-written guard contracts (a callee reached through an interface indexes unchecked: the caller's guard is
+	// the only protection)
+	cs := loadContracts(c)
+	runContracts(c, cs, vc.Options{Safety: false, InlineDepth: 2, InlineSize: 100}, defaultSolve())
 	c.Assume = append(c.Assume,
 		"the clause 'in bounded time / no hang / no unbounded allocation' is not decided (partial correctness)",
 		"nil-pointer dereference is not among the generated obligations",
